@@ -543,14 +543,26 @@ static void gen_x64(x86::Compiler& cc, vj::Rng& rng) {
   unsigned n8 = rng.below(4), n16 = rng.below(4), n32 = 2 + rng.below(14), n64 = 1 + rng.below(8), nx = 2 + rng.below(24);
   std::vector<x86::Gp> g8, g16, g32, g64;
   std::vector<x86::Vec> xs;
-  FuncNode* fn = cc.add_func(FuncSignature::build<void, void*, uint32_t>());
+  // 1 pointer + 1..13 integer arguments: beyond the register arguments they arrive on the stack
+  unsigned nargs = 1 + rng.below(13);
+  FuncSignature sig(CallConvId::kCDecl);
+  sig.set_ret_t<void>();
+  sig.add_arg_t<void*>();
+  for (unsigned i = 0; i < nargs; i++) sig.add_arg_t<uint32_t>();
+  FuncNode* fn = cc.add_func(sig);
   x86::Gp p = cc.new_gp_ptr("p");
   x86::Gp a1 = cc.new_gp32("a1");
   fn->set_arg(0, p);
   fn->set_arg(1, a1);
+  if (n32 < nargs) n32 = nargs;
   for (unsigned i = 0; i < n8; i++) { g8.push_back(cc.new_gp8("b%u", i)); cc.mov(g8.back(), int(i + 1)); }
   for (unsigned i = 0; i < n16; i++) { g16.push_back(cc.new_gp16("h%u", i)); cc.mov(g16.back(), int(i + 100)); }
-  for (unsigned i = 0; i < n32; i++) { g32.push_back(cc.new_gp32("w%u", i)); if (i) cc.mov(g32.back(), int(i + 1000)); else cc.mov(g32.back(), a1); }
+  for (unsigned i = 0; i < n32; i++) {
+    g32.push_back(cc.new_gp32("w%u", i));
+    if (i == 0) cc.mov(g32.back(), a1);
+    else if (i < nargs) fn->set_arg(i + 1, g32.back());          // argument i+1 lives in w<i> from the start
+    else cc.mov(g32.back(), int(i + 1000));
+  }
   for (unsigned i = 0; i < n64; i++) { g64.push_back(cc.new_gp64("q%u", i)); cc.mov(g64.back(), int(i + 5000)); }
   for (unsigned i = 0; i < nx; i++) { xs.push_back(cc.new_xmm("x%u", i)); if (rng.chance(1, 2)) cc.movd(xs.back(), g32[rng.below(n32)]); else cc.pxor(xs.back(), xs.back()); }
   x86::Gp cnt = cc.new_gp32("cnt");
@@ -619,12 +631,23 @@ static void gen_a64(a64::Compiler& cc, vj::Rng& rng) {
   unsigned nw = 2 + rng.below(20), nxr = 1 + rng.below(12), nq = 4 + rng.below(30), nd = rng.below(6), ns = rng.below(6);
   std::vector<a64::Gp> w, x;
   std::vector<a64::Vec> q, d, sv;
-  FuncNode* fn = cc.add_func(FuncSignature::build<void, void*, uint32_t>());
+  unsigned nargs = 1 + rng.below(13);
+  FuncSignature sig(CallConvId::kCDecl);
+  sig.set_ret_t<void>();
+  sig.add_arg_t<void*>();
+  for (unsigned i = 0; i < nargs; i++) sig.add_arg_t<uint32_t>();
+  FuncNode* fn = cc.add_func(sig);
   a64::Gp p = cc.new_gp_ptr("p");
   a64::Gp a1 = cc.new_gp32("a1");
   fn->set_arg(0, p);
   fn->set_arg(1, a1);
-  for (unsigned i = 0; i < nw; i++) { w.push_back(cc.new_gp32("w%u", i)); if (i) cc.mov(w.back(), int(i + 1000)); else cc.mov(w.back(), a1); }
+  if (nw < nargs) nw = nargs;
+  for (unsigned i = 0; i < nw; i++) {
+    w.push_back(cc.new_gp32("w%u", i));
+    if (i == 0) cc.mov(w.back(), a1);
+    else if (i < nargs) fn->set_arg(i + 1, w.back());
+    else cc.mov(w.back(), int(i + 1000));
+  }
   for (unsigned i = 0; i < nxr; i++) { x.push_back(cc.new_gp64("x%u", i)); cc.mov(x.back(), int(i + 5000)); }
   for (unsigned i = 0; i < nq; i++) { q.push_back(cc.new_vec_q("q%u", i)); cc.ldr(q.back(), a64::ptr(p, int(16 * (i % 8)))); }
   for (unsigned i = 0; i < nd; i++) { d.push_back(cc.new_vec_d("d%u", i)); cc.ldr(d.back(), a64::ptr(p, int(8 * i))); }
